@@ -128,6 +128,9 @@ type Op struct {
 	Now    int64
 	Mode   string // lock: "" | "G" | "C"
 	UpID   string
+	Prefix string
+	Token  string
+	Max    int // listBuckets: 0 = not sent (10000)
 	Num    int
 	Data   []Seg
 	Range  *[2]int
@@ -257,6 +260,14 @@ func (o *Op) ModelLine(obs *Obs) string {
 		"deleteBucketTagging", "getOwnership", "deleteOwnership", "getVersioning":
 		a = []string{hx(o.B)}
 	case "listBuckets":
+		mx := o.Max
+		if mx == 0 {
+			mx = 10000
+		}
+		if mx < 0 {
+			mx = 0
+		}
+		a = []string{hx(o.Prefix), hx(o.Token), strconv.Itoa(mx)}
 	case "putBucketPolicy":
 		a = []string{hx(o.B), o.Policy.line(), b01(o.Valid)}
 	case "putBucketAcl":
@@ -589,18 +600,32 @@ func (w *World) Exec(o *Op) *Obs {
 		req.Method, req.Path = "HEAD", bpath
 	case "listBuckets":
 		req.Method, req.Path = "GET", "/"
+		var q []string
+		if o.Prefix != "" {
+			q = append(q, "prefix="+gw.EncodeQueryValue(o.Prefix))
+		}
+		if o.Token != "" {
+			q = append(q, "continuation-token="+gw.EncodeQueryValue(o.Token))
+		}
+		if o.Max > 0 {
+			q = append(q, "max-buckets="+strconv.Itoa(o.Max))
+		} else if o.Max < 0 {
+			q = append(q, "max-buckets=0")
+		}
+		req.Query = strings.Join(q, "&")
 		fields = func(r gw.Resp) {
 			var res struct {
 				Buckets []struct {
 					Name string `xml:"Name"`
 				} `xml:"Buckets>Bucket"`
+				Token string `xml:"ContinuationToken"`
 			}
 			xml.Unmarshal(r.Body, &res)
 			var n []string
 			for _, b := range res.Buckets {
 				n = append(n, hx(b.Name))
 			}
-			obs.Fields = append(obs.Fields, KV{"buckets", strings.Join(n, ",")})
+			obs.Fields = append(obs.Fields, KV{"buckets", strings.Join(n, ",")}, KV{"token", hx(res.Token)})
 		}
 	case "putBucketPolicy":
 		req.Method, req.Path, req.Query = "PUT", bpath, "policy"
